@@ -471,8 +471,17 @@ class FillRequest(object):
             self._n_count = 0
 
     def reset(self):
-        """Reset *el* (ignoring the initialization setting)."""
+        """Reset *el* (ignoring the initialization setting).
+
+        Values and results that were not yet requested are dropped.
+        """
         self._el_reset()
+        if callable(self.fill):
+            self._n_count = 0
+            if self._buffer_input:
+                self._buffer_in = []
+            else:
+                self._buffer_out = []
 
     def run(self, flow):
         """Process the *flow* slice by slice.
